@@ -18,6 +18,7 @@ RULE = (
     "(>= 2000 quadrature-cells, parallel on/off, repeated) and 'expression' (Form API == IntegralForm, sym on/off, "
     "sequential / threaded). Non-trivial: >= 2 cells sharing points and an integrand without zero components."
     " Added later: full block lists on plane-strain mixed containers with integrands in the materials' (3, 3, q, c) shape, axisymmetric value-value and value-gradient forms."
+    " Expression axis bilinear-two-containers (scalar test / vector trial field from different containers) against a dense reference from the region's arrays; explicit value spaces in all blocks of mixed forms; default gradient flags."
 )
 ASSUMPTIONS = [
     "thread schedules are sampled, not owned: decided is 'the result does not depend on the parallel flag' on every generated input",
